@@ -251,6 +251,10 @@ def body(chk, db, cfgname):
         else:
             r6.bad(site, o.loc(), "operator()(Indices) does not return the element stored under Indices", cfgname)
 
+    from pv.check import FilteredRule, ViewCheck
+    from checks import c17
+    rr6 = chk.rule("C01-R6", "values read through GFContainer are those of GreensFunction(C_i, CX_j)", "F1 dominance", 3)
+    c17.body(ViewCheck(chk, {"C17-R8": FilteredRule(rr6, lambda st: "Pomerol::IndexContainer2" in st)}), db, cfgname)
     r8 = chk.rule("C01-R8", "the container key IndexCombination2 is ordered by a strict total order on (Index1, Index2), and its ==/!= agree with it: every component G_ij is its own entry", "F8 guards (comparator bodies evaluated on all pairs of a small domain)", 1)
     from checks.orders import check_key_class
     check_key_class(r8, db, cfgname, "Pomerol::IndexCombination2", ["Index1", "Index2"], domain=(0, 1, 2, 3))
